@@ -202,6 +202,29 @@ func (t *tb) ubits(v ssa.Value) int {
 				a = b
 			}
 			return min64(a + 1)
+		case token.QUO, token.REM:
+			// dividing a non-negative value by a constant k >= 1 shrinks it by floor(log2 k) bits; the remainder is below k
+			_, uns, _ := intBits(x.X.Type())
+			if k, ok := t.constVal(x.Y); ok && k >= 1 && (uns || a < 64) {
+				lg := 0
+				for kk := k; kk > 1; kk >>= 1 {
+					lg++
+				}
+				if x.Op == token.QUO {
+					if a-lg < 0 {
+						return 0
+					}
+					return a - lg
+				}
+				n := 0
+				for kk := k - 1; kk > 0; kk >>= 1 {
+					n++
+				}
+				if n < a {
+					return n
+				}
+				return a
+			}
 		case token.SHL:
 			if k, ok := t.constVal(x.Y); ok {
 				return min64(a + int(k))
